@@ -184,6 +184,48 @@ func runC11(c C11Case) (st Stats, err error) {
 	}
 
 	if !c.Parallel {
+		// unrelated traffic elsewhere in the process (zero values of the same Go types, handed to the
+		// library on other structures) between a query and its repetition must not change the answer
+		// (only the families of types this tree actually holds: a family the tree lacks is left
+		// untouched so that the first tree holding it still sees the library "cold")
+		type renderer interface{ String() string }
+		var first []string
+		var fams []string
+		seen := map[string]bool{}
+		c.Root.Walk(func(n Node, d int) {
+			f := ""
+			switch {
+			case n.IsLeaf() && (n.Leaf.K == "stringer" || n.Leaf.K == "istringer"):
+				f = "stringer"
+			case !n.IsLeaf() && n.Wrap != WrapNative:
+				f = "alias"
+			case n.IsCond() && n.Op.K != "cmp":
+				f = "operator"
+			}
+			if f != "" && !seen[f] {
+				seen[f] = true
+				fams = append(fams, f)
+			}
+		})
+		if len(fams) > 0 {
+			st.Class("foreign-traffic-between-repeats")
+		}
+		if p := guard(func() {
+			for _, t := range targets {
+				first = append(first, t.recv.(renderer).String())
+			}
+			foreignZeroTraffic(fams...)
+			for k, t := range targets {
+				if again := t.recv.(renderer).String(); again != first[k] {
+					panic(fmt.Sprintf("%s String() answered %q, and %q after unrelated queries on other structures", t.path, first[k], again))
+				}
+			}
+		}); p != "" {
+			return st, violf("String/not-repeatable-across-foreign-traffic", "%s\n  tree %s", p, c.Root.Brief())
+		}
+		if after := Snapshot(root); after != before {
+			return st, violf("foreign-traffic/modified", "unrelated queries on other structures changed this one: %s", diffSnap(before, after))
+		}
 		for i, call := range c.Programs[0] {
 			st.Sub++
 			t, m, args, desc := resolve(call)
@@ -295,7 +337,7 @@ func c11ArgsAgain(m methodRef, call C17Call, t c11Target, twin any) ([]reflect.V
 
 var c11RecvGen = TreeGen{MaxDepth: 3, MaxWidth: 4, Budget: 16, Kinds: stackKinds,
 	Leaf: func(t *rapid.T) Val { return genPrimVal(t, true, true) }, Conds: true, CondExprStack: true, CondExprCond: true, InvalidConds: true, NilLeaves: true, EmptyStacks: true,
-	Options: true, Caps: true, IndexOpts: true, MutexOpt: true, FIFOOpt: true, Wraps: true, Ambient: true, WideRuns: true, NoNestAfter: true, ReadOnlyNodes: true}
+	Options: true, Caps: true, IndexOpts: true, MutexOpt: true, FIFOOpt: true, Wraps: true, ZooLeaves: true, Ambient: true, WideRuns: true, NoNestAfter: true, ReadOnlyNodes: true}
 
 func genC11(t *rapid.T, tier Tier) C11Case {
 	c := C11Case{Root: c11RecvGen.Draw(t), Rich: rapid.Bool().Draw(t, "rich"), RO: rapid.IntRange(0, 2).Draw(t, "ro") == 0}
@@ -369,11 +411,11 @@ func init() {
 			"the full snapshot of the whole structure (public getters + VerifDump, recursively) is identical after every query, the repeated query answers the same, scribbling over the Unmarshal result changes nothing. " +
 			"rapid (parallel; all cases in the -race stage): 8..16 goroutines x 3..8 queries x 3 rounds behind a start barrier on one shared structure: every answer equals the answer obtained in isolation, snapshot unchanged, no race report. " +
 			"non-trivial = receiver depth>=2 with >=1 non-default setting and a query that takes arguments or walks the tree; distinct = distinct case JSON",
-		Gen:      genC11,
-		Run:      runC11,
-		Enum:     enumC11,
-		EnumNote: "every classified query x 24 variants x 5 templates x {writable, read-only} x every nested node",
-		Floors:   map[string]float64{},
+		Gen:         genC11,
+		Run:         runC11,
+		Enum:        enumC11,
+		EnumNote:    "every classified query x 24 variants x 5 templates x {writable, read-only} x every nested node",
+		Floors:      map[string]float64{},
 		Assumptions: []string{"policies installed on receivers are pure, goroutine-safe recorders", "data-race freedom is observed by the race detector on sampled executions only (never a proof of absence)"},
 	})
 }
